@@ -148,6 +148,21 @@ class Facts:
         for f in sorted(glob.glob(os.path.join(self.dir, 'facts-*.json'))):
             d = json.load(open(f))
             self.crates[d['crate']] = {fn['path']: Fn(fn, d['crate']) for fn in d['fns']}
+        # parameters are named positionally from the reviewed tree (tables/params.json): renaming a parameter in /repo
+        # leaves every rendered condition unchanged; a changed arity keeps the current names
+        self.renamed = {}
+        ptab = os.path.join(os.path.dirname(os.path.dirname(os.path.abspath(__file__))), 'tables', 'params.json')
+        if os.path.exists(ptab) and not os.environ.get('VERIF_NO_PARAM_TABLE'):
+            frozen = json.load(open(ptab))['params']
+            for crate, fns in self.crates.items():
+                for path, fn in fns.items():
+                    names = frozen.get(crate, {}).get(path)
+                    if names is None or len(names) != fn.argc:
+                        continue
+                    for i, nm in enumerate(names, 1):
+                        if nm is not None and fn.names.get(i) is not None and fn.names.get(i) != nm:
+                            self.renamed.setdefault(path, {})[fn.names[i]] = nm
+                            fn.names[i] = nm
         self.F = self.crates['simfony']
         self.grammar = json.load(open(os.path.join(self.dir, 'grammar.json')))
         self._cg = None
@@ -328,6 +343,11 @@ class Explorer:
         if pl['p'] and key in env:
             return env[key]
         v = env.get(pl['l'], ('undef', pl['l']))
+        if not pl['p']:
+            # by-value field assignments to this local (`self.file = Some(file); self`): functional update
+            ups = sorted((k[1], val) for k, val in env.items() if isinstance(k, tuple) and k[0] == pl['l'] and k[1] and k[1][0].startswith('.'))
+            if ups:
+                v = ('upd', v, tuple(('/'.join(q.split(':', 1)[1] if ':' in q else q for q in proj), val) for proj, val in ups))
         for p in pl['p']:
             if p == '*':
                 continue
@@ -491,6 +511,8 @@ class Explorer:
                     val = self.rvalue(env, st['rv'])
                     lhs = st['lhs']
                     if not lhs['p']:
+                        for stale in [k for k in env if isinstance(k, tuple) and k[0] == lhs['l'] and k[1] and k[1][0].startswith('.')]:
+                            del env[stale]
                         env[lhs['l']] = val
                     else:
                         env[(lhs['l'], tuple(lhs['p']))] = val
@@ -525,6 +547,8 @@ class Explorer:
                                 val = r
                     d = t['dest']
                     if not d['p']:
+                        for stale in [k for k in env if isinstance(k, tuple) and k[0] == d['l'] and k[1] and k[1][0].startswith('.')]:
+                            del env[stale]
                         env[d['l']] = val
                     else:
                         env[(d['l'], tuple(d['p']))] = val
@@ -627,6 +651,8 @@ def sv(v, depth=0):
         return n + '(' + ', '.join(sv(a, depth + 1) for a in v[2]) + ')'
     if k == 'field':
         return sv(v[1], depth) + '.' + v[2]
+    if k == 'upd':
+        return sv(v[1], depth) + '{' + ', '.join('%s: %s' % (f, sv(x, depth + 1)) for f, x in v[2]) + '}'
     if k == 'idx':
         return sv(v[1], depth) + v[2]
     if k == 'index':
